@@ -34,9 +34,11 @@ def bitmap_sectors(spb: int) -> int:
 
 
 def build(img, *, block_size=2 << 20, table_offset=1536, data_start=None, original_size=None, file_id=0, P=None,
-          size_bytes=None, extra_bat_entries=0, footer_kw=None):
+          size_bytes=None, extra_bat_entries=0, footer_kw=None, layout="std"):
     """img: {"kind","n","cb","bat","size","foot511"} -> (VirtualFile, info dict).
-    footer_kw: footer fields that do not influence the mapping (features, uid, timestamp, geometry)."""
+    footer_kw: footer fields that do not influence the mapping (features, uid, timestamp, geometry).
+    layout: "std" footer copy | dynamic header | BAT | blocks | footer;  "bat-last" ... | blocks | BAT | footer (a table that was
+    moved behind the data when the disk was expanded);  "hdr-far" footer copy | blocks | (beyond 4 GiB) dynamic header | BAT | footer."""
     footer_kw = footer_kw or {}
     cb = img["cb"]
     cell = block_size // cb
@@ -55,19 +57,31 @@ def build(img, *, block_size=2 << 20, table_offset=1536, data_start=None, origin
     ents = [img["bat"][i] for i in range(n)]
     npos = (max([e for e in ents if e >= 0], default=-1) + 1) if P is None else P
     nent = n + extra_bat_entries
-    if data_start is None:
-        data_start = (table_offset + 4 * nent + 511) // 512 * 512
-    assert data_start % 512 == 0 and data_start >= table_offset + 4 * nent
+    dyn_offset = 512
+    if layout == "bat-last":
+        data_start = 1536 if data_start is None else data_start
+        table_offset = data_start + npos * stride + (table_offset - 1536)
+    elif layout == "hdr-far":
+        data_start = 512 if data_start is None else data_start
+        dyn_offset = max(0xFFFFFFFF + (table_offset - 1536) // 512 * 512 + 1, (data_start + npos * stride + 511) // 512 * 512)
+        table_offset = dyn_offset + 1024
+    else:
+        if data_start is None:
+            data_start = (table_offset + 4 * nent + 511) // 512 * 512
+        assert data_start >= table_offset + 4 * nent
+    assert data_start % 512 == 0
     bat = b"".join(struct.pack(">I", 0xFFFFFFFF if e < 0 else (data_start + e * stride) // 512) for e in ents)
     bat += b"\xff" * (4 * extra_bat_entries)
-    ft = footer(size_b, 3, 512, original_size=original_size, **footer_kw)
+    ft = footer(size_b, 3, dyn_offset, original_size=original_size, **footer_kw)
     dh = dyn_header(table_offset, nent, block_size)
-    ext = [(0, 512, "bytes", ft), (512, 1024, "bytes", dh), (table_offset, len(bat), "bytes", bat)]
+    ext = [(0, 512, "bytes", ft), (dyn_offset, 1024, "bytes", dh), (table_offset, len(bat), "bytes", bat)]
     for p in range(npos):
         # sector bitmap: all sectors present (0xFF), then the block data
         ext.append((data_start + p * stride, bm, "bytes", b"\xff" * bm))
         ext.append((data_start + p * stride + bm, block_size, "pat", file_id))
     end = data_start + npos * stride
+    if layout != "std":
+        end = (table_offset + len(bat) + 511) // 512 * 512
     ext.append((end, flen, "bytes", ft[:flen]))
     vf = VirtualFile(end + flen, ext, fid=file_id)
     return vf, {"cell": cell, "size": size_b, "base": data_start + bm, "stride": stride, "cb": cb}
